@@ -705,6 +705,12 @@ class _ExprNorm(ast.NodeTransformer):
     def visit_Call(self, node):
         self.generic_visit(node)
         f = u(node.func)
+        # (lambda a, b: E)(x, y) -> E[a := x, b := y]    (simple arguments)
+        if isinstance(node.func, ast.Lambda) and not node.keywords and not any(isinstance(a, ast.Starred) for a in node.args):
+            la = node.func.args
+            if not (la.vararg or la.kwarg or la.kwonlyargs or la.defaults or la.posonlyargs) and len(la.args) == len(node.args) \
+                    and all(isinstance(a, ast.Constant) or norm._attr_chain(a) is not None for a in node.args):
+                return norm._Subst({p_.arg: a for p_, a in zip(la.args, node.args)}).visit(copy.deepcopy(node.func.body))
         # typing.cast(T, x) is x
         if f in ("cast", "typing.cast") and len(node.args) == 2 and not node.keywords:
             return node.args[1]
@@ -839,8 +845,24 @@ class _ExprNorm(ast.NodeTransformer):
         while True:
             g0 = node.generators[0]
             inner = g0.iter
-            if not (isinstance(inner, (ast.GeneratorExp, ast.ListComp)) and norm.is_pure(inner, _PURE_EXT) and not g0.is_async):
+            if not (isinstance(inner, (ast.GeneratorExp, ast.ListComp)) and not g0.is_async):
                 return node
+            if not norm.is_pure(inner, _PURE_EXT):
+                # an inner pipeline stage with calls keeps its own order of evaluation; what moves is the outer stage: that is harmless
+                # when it only computes from the element (constructors / builtins over the bound names, no reads of other objects)
+                tn = {n.id for n in ast.walk(g0.target) if isinstance(n, ast.Name)}
+                outer_parts = list(g0.ifs) + [getattr(node, f) for f in ("elt", "key", "value") if hasattr(node, f)]
+
+                def element_only(e):
+                    if not norm.is_pure(e, _PURE_EXT):
+                        return False
+                    callee_ids = {id(x) for c in ast.walk(e) if isinstance(c, ast.Call) for x in ast.walk(c.func)}
+                    for n in ast.walk(e):
+                        if isinstance(n, ast.Name) and isinstance(n.ctx, ast.Load) and n.id not in tn and id(n) not in callee_ids and n.id not in norm.PURE_FUNCS:
+                            return False
+                    return True
+                if len(node.generators) != 1 or not all(element_only(e) for e in outer_parts):
+                    return node
             tnames = [n.id for n in ast.walk(g0.target) if isinstance(n, ast.Name)]
             if isinstance(g0.target, ast.Name):
                 mapping = {g0.target.id: inner.elt}
@@ -1041,6 +1063,12 @@ def known_defs() -> set[str]:
     return _KNOWN
 
 
+def _table_entry(e) -> bool:
+    if isinstance(e, ast.Tuple):
+        return all(_table_entry(x) for x in e.elts)
+    return isinstance(e, (ast.Constant, ast.Lambda)) or norm._attr_chain(e) is not None
+
+
 class _StripAnn(ast.NodeTransformer):
     """`x: T = v` -> `x = v`; a bare declaration `x: T` disappears (annotations of locals have no run-time effect)"""
     def visit_AnnAssign(self, node):
@@ -1072,9 +1100,12 @@ class Canon:
         known = known_defs()
         consts = {}
         for name, v in module.assigns.items():
-            if name.startswith("_") and not name.startswith("__") and f"const:{name}" not in known and isinstance(v, ast.Constant) \
-                    and isinstance(v.value, (int, str, bytes)) and not isinstance(v.value, bool):
+            if not (name.startswith("_") and not name.startswith("__") and f"const:{name}" not in known):
+                continue
+            if isinstance(v, ast.Constant) and isinstance(v.value, (int, str, bytes)) and not isinstance(v.value, bool):
                 consts[name] = v
+            elif isinstance(v, (ast.Tuple, ast.List)) and 1 <= len(v.elts) <= 8 and all(_table_entry(e) for e in v.elts):
+                consts[name] = v            # a dispatch table: rows of names / constants / lambdas
         if not consts:
             return stmts
         local = norm._assigned_names(stmts) | {a.arg for a in fn.args.posonlyargs + fn.args.args + fn.args.kwonlyargs}
@@ -1362,6 +1393,9 @@ class Canon:
         b = [copy.deepcopy(s) for s in real_body(fn)]
         b = strip_annotations(b)
         b = self._inline_unknown_constants(b, module, fn)
+        b2 = norm.unroll_literal_loops(b)
+        if len(b2) != len(b) or any(x is not y for x, y in zip(b, b2)):
+            b = [_ExprNorm().visit(s_) for s_ in b2]         # dispatch tables written out: apply the lambdas of the rows
         # nested function definitions that get inlined are dropped afterwards
         b = lower_matches(b, self._match_args(module, fn))
         b = lift_ifexp(b)
@@ -1378,6 +1412,7 @@ class Canon:
         used = {n.id for s in b for n in ast.walk(s) if isinstance(n, ast.Name)} | {n.func.id for s in b for n in ast.walk(s) if isinstance(n, ast.Call) and isinstance(n.func, ast.Name)}
         b = [s for s in b if not (isinstance(s, ast.FunctionDef) and s.name not in used)]
         b = norm.unroll_literal_loops(b)
+        b = norm.map_pushdown(norm.extend_to_augassign(b), pure_calls=_PURE_EXT)
         b = self.call_layout(b, module, cls)
         b = polarity(b)
         b = or_default(b)
